@@ -25,7 +25,7 @@ KIND_REPS = [['int', 3], ['fixed', 640], ['str', 'k l'], ['obj', 'zz_y', 12], ['
              ['nil'], ['fd', 4], ['array', 0]]
 
 STR_TOKENS = ['a', ' ', ',', ', ', '(', ')', '[', ']', '{', '}', '<1>', '@3', '#3', ' -> ', '.', 'nil', 'new id ', 'fd 3',
-              'array', '7', '-', '1.5', "'", 'é', '[1.0] ', 'x@1.y(',
+              'array', '7', '-', '1.5', "'", 'é', '[1.0] ', 'x@1.y(', '1,5', '10,20,30', ':)',
               # composite bodies that look like a whole message head
               '[1.0]  -> x@1.y(', '} <2> c#2.d(', '[2.0] z@2.w(', '[3.0] <6>  -> v@4.u(', '[3.0] {q} <7> v@4.u(']
 
@@ -173,6 +173,48 @@ def gen_history_cases(tier):
                            'after_target': list(target)}
 
 
+# ---- the same decoding reached through the parser loop (a file-like object read line by line) ------------------------
+# A message of 4096 bytes on the wire prints as a longer line (decimal ids, names, quotes): strings of up to ~4080
+# characters are ordinary; longer lines can come from a patched libwayland and must still be one line.
+LONG_LENGTHS = [100, 4000, 4040, 4060, 4083, 4096, 8192, 70000]
+
+
+def gen_pipeline_cases(tier):
+    for n in LONG_LENGTHS:
+        for (d, q, c) in COMBOS_SMALL:
+            for body in ('x' * n, 'ab, ' * (n // 4)):
+                # received wl_display.error(object, code, message) and sent wl_registry.bind(name, interface, version, id)
+                yield {'pipeline': True, 'd': d,
+                       'm': base_msg([['obj', 'wl_display', 1], ['int', 3], ['str', body]], False, q, c, iface='wl_display', oid=1, name='error')}
+                if ',' not in body:      # the string is the interface name the new object gets
+                    yield {'pipeline': True, 'd': d,
+                           'm': base_msg([['int', 7], ['str', body], ['int', 1], ['new', None, 3]], True, q, c, iface='wl_registry', oid=2, name='bind')}
+
+
+def evaluate_pipeline(case):
+    from .. import outparse
+    m, d = case['m'], case['d']
+    line = wlprint.render(m, d)
+    V = []
+    try:
+        s = sut.Session()
+        s.feed_line(wlprint.render(base_msg([['new', 'wl_registry', 2]], True, m['queue'], m['conn'], t_us=m['t_us'], iface='wl_display', oid=1,
+                                            name='get_registry'), d))
+        out, err = s.feed_line(line)
+        recs = [outparse.classify(l) for l in out]
+        msgs = [r for k, r in recs if k == 'message']
+        want_strs = [a[1] for a in m['args'] if a[0] == 'str']
+        if len(msgs) != 1 or len([1 for k, _ in recs if k not in ('notice', 'separator')]) != 1:
+            V.append(Violation('decode.pipeline_split', case, {'line_length': len(line), 'items_shown': len(recs),
+                                                                  'heads': [l[:80] for l in out][:4]}))
+        elif len(msgs[0]['args']) != len(m['args']) or any(w not in msgs[0]['text'] for w in want_strs):
+            V.append(Violation('decode.pipeline_args', case, {'line_length': len(line), 'shown_head': msgs[0]['text'][:120],
+                                                                 'arity_shown': len(msgs[0]['args']), 'arity': len(m['args'])}))
+    except Exception:
+        V.append(sut.exc_violation(case, 'decode.exception'))
+    return Eval(V, outcome=[len(line) > 4096, len(V)], nontrivial=True)
+
+
 def evaluate_after_history(case):
     """Feed the earlier lines through a whole session (decoded AND resolved against a connection), then decode
     the line under test on its own: the decode must equal the structured message, whatever came before."""
@@ -306,6 +348,8 @@ def run(run, tier, seed):
     run.add_part('lines', res)
     res2 = explore.prod(lambda: gen_history_cases(tier), evaluate_after_history, seed=seed, bound={'history': 'one earlier line, resolved'})
     run.add_part('decode_after_history', res2)
+    res3 = explore.prod(lambda: gen_pipeline_cases(tier), evaluate_pipeline, seed=seed, bound={'string_lengths': LONG_LENGTHS})
+    run.add_part('long_lines_through_the_parser_loop', res3)
     run.rule = ('product enumeration: printer-model lines over dialects {old, old+comma, 1.21, current+patches} x '
                 'direction x queue/connection tags x argument lists; non-trivial = at least two argument kinds in the line')
     run.bound = res.bound
@@ -316,6 +360,9 @@ def run(run, tier, seed):
 
 def replay(case):
     sut.bind()
+    if case.get('pipeline'):
+        sut.ensure_protocols()
+        return evaluate_pipeline(case).viols
     if 'after' in case:
         sut.ensure_protocols()
         return evaluate_after_history(case).viols
